@@ -282,6 +282,7 @@ func (c *Client) handleOne() {
 		if resp == nil {
 			return
 		}
+		verifPoint("client:handleOne:before-deliver")
 		resp.r = r
 		resp.done <- err
 	}
